@@ -235,8 +235,11 @@ func (x *Exec) callByContract(st *State, fr *Frame, callee *ssa.Function, fc *Fu
 	}
 	old := st.snapshot()
 	// frame: havoc what the callee may modify
+	x.nextBefore = x.nextTerm(st)
+	nbCall := x.nextBefore
 	x.bumpNext(st)
 	x.havocForCall(st, env, callee, fc, name)
+	x.nextBefore = ""
 	// results
 	var res []*Value
 	var sig *types.Signature
@@ -250,7 +253,7 @@ func (x *Exec) callByContract(st *State, fr *Frame, callee *ssa.Function, fc *Fu
 			res = append(res, rv)
 		}
 	}
-	post := &Env{x: x, st: st, old: old, vars: env.vars, pkg: env.pkg}
+	post := &Env{x: x, st: st, old: old, vars: env.vars, pkg: env.pkg, newBase: nbCall}
 	post = post.withResultsSig(res, sig, fc)
 	for _, e := range fc.Ensures {
 		st.assume(x.evalBool(post, e.Expr))
@@ -424,11 +427,13 @@ func (x *Exec) havocModItem(st *State, env *Env, m ModItem, classes map[string]b
 			if stt.Field(i).Name() == e.Name {
 				hn, hs := x.fieldHeapName(bt, i)
 				h := x.heap(st, hn, hs)
+				oldv := app("select", h, x.refTerm(base))
 				fv := x.freshSort("mod_"+e.Name, x.Sorts.SortOf(stt.Field(i).Type()))
 				x.setHeap(st, hn, hs, app("store", h, x.refTerm(base), fv))
 				nv := &Value{T: fv, Typ: stt.Field(i).Type()}
 				x.assumeTypeInv(st, nv)
-				x.alsoContents(st, stt.Field(i).Type(), classes)
+				x.assumeAllocated(st, nv)
+				x.havocContentsFramed(st, stt.Field(i).Type(), oldv)
 				return
 			}
 		}
@@ -483,6 +488,33 @@ func (x *Exec) havocModItem(st *State, env *Env, m ModItem, classes map[string]b
 	}
 }
 
+// havocContentsFramed: the contents reachable through one slice/map value may
+// change; every other array/map that existed before the call keeps its contents.
+func (x *Exec) havocContentsFramed(st *State, t types.Type, oldv string) {
+	nb := x.nextBefore
+	if nb == "" {
+		nb = x.nextTerm(st)
+	}
+	frame := func(hn, hs, key string) {
+		h := x.heap(st, hn, hs)
+		nh := x.freshSort(hn, hs)
+		st.assume(fmt.Sprintf("(forall ((a Int)) (! (=> (and (< a %s) (not (= a %s))) (= (select %s a) (select %s a))) :pattern ((select %s a))))", nb, key, nh, h, nh))
+		if ax := x.birthAxiom(hn, nh, hs, x.nextTerm(st)); ax != "" {
+			st.assume(ax)
+		}
+		st.heaps[hn] = nh
+	}
+	switch u := t.Underlying().(type) {
+	case *types.Slice:
+		hn, hs := x.elemHeapName(u.Elem())
+		frame(hn, hs, app("s_arr", oldv))
+	case *types.Map:
+		dn, vn, ds, vs := x.mapHeapNames(u)
+		frame(dn, ds, oldv)
+		frame(vn, vs, oldv)
+	}
+}
+
 func (x *Exec) alsoContents(st *State, t types.Type, classes map[string]bool) {
 	switch u := t.Underlying().(type) {
 	case *types.Slice:
@@ -521,14 +553,18 @@ func (x *Exec) lookupTypeName(env *Env, name string) types.Type {
 
 // applyGhost performs the ghost assignments of a contract (simultaneously).
 func (x *Exec) applyGhost(st *State, env *Env, fc *FuncContract) {
-	if len(fc.Ghost) == 0 {
+	x.applyGhostList(st, env, fc.Ghost)
+}
+
+func (x *Exec) applyGhostList(st *State, env *Env, list []GhostAssign) {
+	if len(list) == 0 {
 		return
 	}
-	vals := make([]*Value, len(fc.Ghost))
-	for i, g := range fc.Ghost {
+	vals := make([]*Value, len(list))
+	for i, g := range list {
 		vals[i] = x.eval(env, g.Expr)
 	}
-	for i, g := range fc.Ghost {
+	for i, g := range list {
 		gv, ok := x.C.Ghosts[g.Var]
 		if !ok {
 			x.limit("ghost assignment to undeclared ghost variable %s", g.Var)
@@ -620,7 +656,9 @@ func (x *Exec) callBySlot(st *State, fr *Frame, sc *FuncContract, slot string, s
 		x.oblige(st, tag, label, props, x.evalBool(env, r.Expr), where, r.Src)
 	}
 	old := st.snapshot()
+	x.nextBefore = x.nextTerm(st)
 	x.bumpNext(st)
+	defer func() { x.nextBefore = "" }()
 	if sc.HasMod {
 		classes := map[string]bool{}
 		for _, m := range sc.Modifies {
@@ -636,7 +674,7 @@ func (x *Exec) callBySlot(st *State, fr *Frame, sc *FuncContract, slot string, s
 		x.assumeTypeInv(st, rv)
 		res = append(res, rv)
 	}
-	post := (&Env{x: x, st: st, old: old, vars: env.vars, pkg: env.pkg}).withResultsSig(res, sig, sc)
+	post := (&Env{x: x, st: st, old: old, vars: env.vars, pkg: env.pkg, newBase: x.nextBefore}).withResultsSig(res, sig, sc)
 	for _, e := range sc.Ensures {
 		st.assume(x.evalBool(post, e.Expr))
 	}
